@@ -74,6 +74,7 @@ type hbState struct {
 	races   map[string]Race
 	maps    map[unsafe.Pointer]uintptr
 	Accesses int64
+	fine     bool     // every tracked access of the instrumented code is a scheduling point of its own
 	relCache []vclock // per goroutine: last released snapshot, valid while the goroutine neither accessed memory nor acquired
 }
 
@@ -89,6 +90,24 @@ func EnableHB() {
 		e.hb.vc = append(e.hb.vc, vclock{})
 	}
 	e.hb.tick(e.cur.id)
+}
+
+// EnableHBFine switches the monitor on and, inside the exploration window, makes
+// every tracked memory access of the instrumented code a scheduling point: two
+// goroutines then interleave at the granularity of their accesses to shared data, so
+// that the effect of an unsynchronised access (not only its existence) is explored.
+// For small scenarios only.
+func EnableHBFine() {
+	EnableHB()
+	if e := ex; e != nil && e.hb != nil {
+		e.hb.fine = true
+	}
+}
+
+func finePoint() {
+	if e := ex; e != nil && e.hb != nil && e.hb.fine && !e.dead && e.window {
+		e.point(op{kind: KYield})
+	}
 }
 
 // Races returns the races found in the execution, sorted by site pair.
@@ -242,6 +261,7 @@ func (h *hbState) pin(p unsafe.Pointer) { h.pins = append(h.pins, p) }
 
 // Rd records a read of *p and returns p.
 func Rd[T any](p *T, site string) *T {
+	finePoint()
 	if e := ex; e != nil && e.hb != nil && !e.dead && p != nil {
 		e.hb.access(e, unsafe.Pointer(p), unsafe.Sizeof(*p), false, false, site)
 	}
@@ -250,6 +270,7 @@ func Rd[T any](p *T, site string) *T {
 
 // Wr records a write of *p and returns p.
 func Wr[T any](p *T, site string) *T {
+	finePoint()
 	if e := ex; e != nil && e.hb != nil && !e.dead && p != nil {
 		e.hb.access(e, unsafe.Pointer(p), unsafe.Sizeof(*p), true, false, site)
 	}
@@ -262,6 +283,7 @@ func mapID[K comparable, V any](m map[K]V) unsafe.Pointer {
 
 // MR records a read of the map as a whole and returns it.
 func MR[K comparable, V any](m map[K]V, site string) map[K]V {
+	finePoint()
 	if e := ex; e != nil && e.hb != nil && !e.dead && m != nil {
 		p := mapID(m)
 		e.hb.pin(p)
@@ -272,6 +294,7 @@ func MR[K comparable, V any](m map[K]V, site string) map[K]V {
 
 // MW records a write of the map as a whole and returns it.
 func MW[K comparable, V any](m map[K]V, site string) map[K]V {
+	finePoint()
 	if e := ex; e != nil && e.hb != nil && !e.dead && m != nil {
 		p := mapID(m)
 		e.hb.pin(p)
